@@ -206,6 +206,13 @@ fn clvm_tree_to_lazy_node(obj: Bound<'_, PyAny>) -> PyResult<LazyNode> {
         },
     }
 
+    // identity_map is keyed by the address of Python objects. An address is only
+    // unique while its object is alive, and `.pair` may build fresh child objects
+    // on every call (LazyNode does), so every visited object is kept alive until
+    // we're done; otherwise a later child allocated at a freed child's address
+    // would be mistaken for it.
+    let mut keep_alive: Vec<Bound<'_, PyAny>> = Vec::new();
+
     let root_ptr = obj.as_ptr() as usize;
     let mut stack: Vec<WorkItem<'_>> = vec![WorkItem::Visit(obj)];
 
@@ -274,6 +281,7 @@ fn clvm_tree_to_lazy_node(obj: Bound<'_, PyAny>) -> PyResult<LazyNode> {
                         ));
                     }
                 }
+                keep_alive.push(pyobj);
             }
             WorkItem::BuildPair {
                 id,
